@@ -798,6 +798,12 @@ func (m *mappedFile) newCounter(name string) (v *atomic.Uint64, m1 *mappedFile, 
 }
 
 func (m *mappedFile) extend(end uint32) (*mappedFile, error) {
+	if end > 1<<32-pageSize {
+		// Rounding up to a page would overflow: the allocation limit read
+		// from the file is corrupt. (Without this check end wraps to 0,
+		// nothing is extended, and newCounter retries for ever.)
+		return nil, errCorrupt
+	}
 	end = round(end, pageSize)
 	info, err := m.f.Stat()
 	if err != nil {
